@@ -304,6 +304,7 @@ func (p *IGMPv3GroupRecord) UnmarshalBinary(data []byte) error {
 	if len(data) < 8+int(p.AuxDataLen)*4+int(p.NumberOfSources)*4 {
 		return fmt.Errorf("The []byte is too short to unmarshal a full IGMPv3GroupRecord message.")
 	}
+	p.SourceAddresses, p.AuxData = nil, nil
 	for i := uint16(0); i < p.NumberOfSources; i++ {
 		p.SourceAddresses = append(p.SourceAddresses, data[n:n+4])
 		n += 4
